@@ -95,6 +95,14 @@ func (f *fn) ifStmt(s *ast.IfStmt, ind int, cont finFn) {
 				return
 			}
 		}
+		// `if _, err := rand.Read(w); err != nil { return err }`
+		if as, ok := s.Init.(*ast.AssignStmt); ok && len(as.Rhs) == 1 {
+			if call, ok := as.Rhs[0].(*ast.CallExpr); ok && fullName(f.calleeOf(call)) == "crypto/rand.Read" {
+				f.randRead(s, as, call)
+				cont()
+				return
+			}
+		}
 		f.fail(s, "if statement with an initialiser of unsupported form")
 	}
 	cond := f.expr(s.Cond)
@@ -248,6 +256,7 @@ func (f *fn) cond(n ast.Node, c string, A, B arm, ind int, cont finFn) {
 		if v.K != KWin {
 			v.N = -1
 		}
+		v.View = nil
 		f.vars[o] = v
 	}
 	if sa2.epoch != f.epoch || sb2.epoch != f.epoch {
@@ -512,8 +521,14 @@ func (f *fn) forStmt(s *ast.ForStmt, ind int) {
 	if len(f.lines) != before {
 		f.fail(s, "loop bound with an index expression")
 	}
-	if bound.K != KNat {
-		f.fail(s, "loop bound that may be negative")
+	// a bound that may be negative: `i < N` fails at once for N ≤ 0, i.e. max(N, 0) iterations
+	boundTerm := bound.S
+	switch bound.K {
+	case KNat:
+	case KInt:
+		boundTerm = fmt.Sprintf("Int.toNat %s", paren(bound.S))
+	default:
+		f.fail(s, "loop bound of unsupported kind")
 	}
 	ast.Inspect(s.Body, func(n ast.Node) bool {
 		switch x := n.(type) {
@@ -601,7 +616,7 @@ func (f *fn) forStmt(s *ast.ForStmt, ind int) {
 	f.w("let %s ← List.foldlM (fun %s %s => (do", res, binder, iname)
 	f.lines = append(f.lines, pre...)
 	f.lines = append(f.lines, lines[:len(lines)-1]...)
-	f.lines = append(f.lines, lines[len(lines)-1]+")) "+tuple+" (List.range "+paren(bound.S)+")")
+	f.lines = append(f.lines, lines[len(lines)-1]+")) "+tuple+" (List.range "+paren(boundTerm)+")")
 	f.mods[comps[0]] = true
 	if len(comps) > 1 {
 		for i, cn := range comps {
@@ -617,6 +632,7 @@ func (f *fn) forStmt(s *ast.ForStmt, ind int) {
 		if v.K != KWin {
 			v.N = -1
 		}
+		v.View = nil
 		f.vars[o] = v
 	}
 	if after.epoch != f.epoch {
